@@ -17,6 +17,13 @@ def indices(s: slice, length: int) -> tuple[int, int | None, int]:
         stop = None
     return start, stop, step
 
+def clamp_step(key: slice, length: int) -> slice:
+    """A step beyond the length selects the same items as a step of the length, which is always safe to hand to bitarray."""
+    limit = max(length, 1)
+    if isinstance(key.step, int) and abs(key.step) > limit:
+        return slice(key.start, key.stop, limit if key.step > 0 else -limit)
+    return key
+
 def offset_slice_indices_lsb0(key: slice, length: int) -> slice:
     start, stop, step = indices(key, length)
     if step is not None and step < 0:
@@ -256,7 +263,7 @@ class BitStore:
 
     def setitem_lsb0(self, key: Union[int, slice], value: Union[int, BitStore], /) -> None:
         if isinstance(key, slice):
-            new_slice = offset_slice_indices_lsb0(key, len(self))
+            new_slice = offset_slice_indices_lsb0(clamp_step(key, len(self)), len(self))
             if isinstance(value, BitStore):
                 self._bitarray.__setitem__(new_slice, value._bitarray)
             else:
@@ -266,7 +273,7 @@ class BitStore:
 
     def delitem_lsb0(self, key: Union[int, slice], /) -> None:
         if isinstance(key, slice):
-            new_slice = offset_slice_indices_lsb0(key, len(self))
+            new_slice = offset_slice_indices_lsb0(clamp_step(key, len(self)), len(self))
             self._bitarray.__delitem__(new_slice)
         else:
             self._bitarray.__delitem__(-key - 1)
@@ -293,10 +300,14 @@ class BitStore:
         return self.modified_length if self.modified_length is not None else len(self._bitarray)
 
     def setitem_msb0(self, key, value, /):
+        if isinstance(key, slice):
+            key = clamp_step(key, len(self))
         if isinstance(value, BitStore):
             self._bitarray.__setitem__(key, value._bitarray)
         else:
             self._bitarray.__setitem__(key, value)
 
     def delitem_msb0(self, key, /):
+        if isinstance(key, slice):
+            key = clamp_step(key, len(self))
         self._bitarray.__delitem__(key)
